@@ -64,10 +64,10 @@ CLAIMED.update({
                 text="For each (query, document) the set of distinct results over ALL outcomes of the implementation's shuffles/samples is compared by TLC with AllowedResults: subset (only permitted orderings) and, when the choice tree was explored completely, equality (every permitted ordering is produced). Documents include the witness shapes (root with three container children) that size-bounded enumeration does not reach; the model's own visitor is checked against LinExts on the same shapes (T8b on all branches, T8c set equality).",
                 note=_TRACE_NOTE + " The chooser rebinds the name `random` in segments/selectors; any other source of randomness is reported as a machinery failure.", design_ref="3.7, 4 (C17)"),
     "C18": dict(technique="TLA+ traversal machines over graph-shaped data (Descent.tla): outcome, progress, bound and termination model-checked on all 2-node graphs incl. every cycle; every terminal state materialised as real cyclic objects and run in both modes (all random outcomes); chains around the limit trace-validated",
-                text="T8d_Outcome (raised iff the unfolding's container nesting exceeds the limit, identically in both modes), T8d_Progress/T8d_Bounded (bounded time) and T8d_Terminates (liveness under fairness) are checked by TLC; each (graph, limit, mode) is then run for real with three queries, the nondeterministic mode under every outcome of the random choices; chains of depth limit-1/limit/limit+1 for limits up to 120 and limits beyond the interpreter's recursion limit are validated by TLC against JsonVal!Nesting.",
+                text="T8d_Outcome (raised iff the unfolding's container nesting exceeds the limit, identically in both modes), T8d_Progress/T8d_Bounded (bounded time) and T8d_Terminates (liveness under fairness) are checked by TLC; each (graph, limit, mode) is then run for real with three queries, the nondeterministic mode under every outcome of the random choices; the limit is also changed on the environment after a query was compiled, the module-level functions and a plain environment are run on data nested 99..3000 deep and on cyclic data; chains of depth limit-1/limit/limit+1 for limits up to 120 and limits beyond the interpreter's recursion limit are validated by TLC against JsonVal!Nesting.",
                 note=_TRACE_NOTE + " Bounded time/memory of the Python code is observed (step bound from the model, wall-clock guard), not proved.", design_ref="3.7, 4 (C18)"),
     "C20": dict(technique="TLA+ phase machine of the CLI (Cli.tla, T12 model-checked over all 960 configurations); every terminal state run for real (in-process main() and subprocess)",
-                text="All 6 query classes x 5 document classes x inline/file query x file/stdin document x stdout/file output x --pretty x --debug: exit status, output (must decode to exactly find(q, doc).values()), stderr shape (empty / one line / traceback iff --debug), no partial result.",
+                text="All 6 query classes x 5 document classes x inline/file query x file/stdin document x stdout/file output x --pretty x --debug: exit status, output (must decode to exactly find(q, doc).values()), stderr shape (empty / one line / traceback iff --debug), no partial result. Query files spanning several lines, inline queries with blank space around them, invalid queries that quote line breaks or contain % / {}, empty containers and scalars as documents, every (valid query, ascii document) pair; the module-level default environment is compared before and after the runs.",
                 note=_TRACE_NOTE + " Operating-system I/O faults and argparse's own errors are out of scope.", design_ref="3.9, 4 (C20)"),
 })
 
